@@ -110,6 +110,39 @@ func allSpecs() []*HarnessSpec {
 		{Name: "k_path_summary", Pkg: "trie", Property: "*", NoSummaries: true, Exhaustive: true, Witness: 1,
 			Quick: []Grid{{"size": {17, 257}}},
 			Note:  "licenses the engine's summary of bmtree.PathToIndex: real PathToIndex(17|257, path) = 0 for the empty path and 1+v for a full path with bits v (all v), executed with the summary switched off"},
+		// ---- L1 kernel lemmas (synthetic state, symbolic bitmap words) ----
+		{Name: "k_shortnode", Pkg: "trie", Property: "C01", Witness: 1,
+			Quick:    []Grid{{"s": {1, 2, 3, 4, 5, 7, 8, 10}, "k": {0, 1, 5, 6, 7, 8, 9, 11, 12, 15, 20, 21, 31, 41, 63}, "spare": {0, 1}}},
+			Thorough: []Grid{{"s": rng(1, 10), "k": rng(0, 127), "spare": {0, 1}}},
+			Note:     "A11: short (table-compressed) inner nodes at every listed alignment incl. word-straddling ones: getIthInner/getIthInnerFrom/getNode read exactly the node's bits of three symbolic Inners words and translate them through a symbolic ShortTable"},
+		{Name: "k_shortnode", Pkg: "trie", Property: "C18", Witness: 1,
+			Quick: []Grid{{"s": {2, 3, 7}, "k": {0, 9, 20, 21, 31}, "spare": {0}}},
+			Note:  "A11 (getIthInnerFrom is what initLevels uses)"},
+		{Name: "k_shortnode", Pkg: "trie", Property: "C10", Witness: 1,
+			Quick: []Grid{{"s": {1, 2, 4, 8}, "k": {0, 7, 15, 31, 63}, "spare": {0, 1}}},
+			Note:  "A11 (every lookup goes through getNode; nodes ending exactly on the last word boundary)"},
+		{Name: "k_fixleaf", Pkg: "trie", Property: "C14", Witness: 1,
+			Quick: []Grid{{"n": {1, 63, 64, 65, 128}}},
+			Note:  "typed getters index Leaves.Bytes directly while Get goes through the rebuilt presence bitmap of 0.5.10 streams"},
+		{Name: "k_enc_type", Pkg: "encode", Property: "C15", Witness: 1,
+			Quick:    []Grid{{"type": rng(0, 4), "big": {0, 1}, "junk": {0, 2}}},
+			Thorough: []Grid{{"type": rng(0, 4), "big": {0, 1}, "junk": {0, 1, 2, 3}}},
+			Note:     "TypeEncoder wrapper logic under the encoding/binary layout model: four sizes agree with len(Encode), round trip with trailing bytes, scalars/arrays/structs with alignment padding, both byte orders"},
+		{Name: "k_innerbm", Pkg: "trie", Property: "C19", Witness: 1,
+			Quick:    []Grid{{"size": {17}, "from": rng(0, 175)}, {"size": {257}, "from": {0, 1, 63, 64, 65, 127, 128, 190, 191}}},
+			Thorough: []Grid{{"size": {17}, "from": rng(0, 175)}, {"size": {257}, "from": rng(0, 191)}},
+			Note:     "A12: getInnerBM returns exactly the node's bits of symbolic Inners words for a plain 17-bit / 257-bit node at every alignment"},
+		{Name: "k_vlen", Pkg: "trie", Property: "C01", Witness: 1,
+			Quick:    []Grid{{"n": {1}, "lens": rng(0, 3)}, {"n": {2}, "lens": rng(0, 15)}, {"n": {3}, "lens": rng(0, 63)}, {"n": {4}, "lens": step(0, 255, 1)}},
+			Thorough: []Grid{{"n": {1}, "lens": rng(0, 3)}, {"n": {2}, "lens": rng(0, 15)}, {"n": {3}, "lens": rng(0, 63)}, {"n": {4}, "lens": rng(0, 255)}, {"n": {5}, "lens": rng(0, 1023)}},
+			Note:     "A16: newVLenArray/VLenArray.get for every combination of element lengths 0..3 (up to 4 elements) with symbolic contents"},
+		{Name: "k_vlen", Pkg: "trie", Property: "C04", Witness: 1,
+			Quick: []Grid{{"n": {3}, "lens": rng(0, 63)}},
+			Note:  "A16 (scans read values through VLenArray.get)"},
+		{Name: "k_fixleaf", Pkg: "trie", Property: "C06", Witness: 1,
+			Quick:    []Grid{{"n": {0, 1, 2, 63, 64, 65, 127, 128, 129, 192}}},
+			Thorough: []Grid{{"n": rng(0, 200)}},
+			Note:     "before000512FixLeafSize for leaf counts around 64-bit word boundaries: get(i) of the rebuilt array returns the i-th bare value for a symbolic i"},
 		// ---- C08 kernel ----
 		{Name: "k_encstep", Pkg: "trie", Property: "C08", Exhaustive: true, Witness: 1,
 			Quick: []Grid{{"x": {0}}},
@@ -125,6 +158,10 @@ func allSpecs() []*HarnessSpec {
 			Quick:    []Grid{{"pos": {0, 31, 62}}},
 			Thorough: []Grid{{"pos": rng(0, 62)}},
 			Note:     "a symbolic pair of neighbours at position i of a 64-key list (equal / swapped / prefix / bytes >= 0x80 are all models of the pair)"},
+		{Name: "l3_api", Pkg: "trie", Property: "C08", Witness: 1,
+			Quick:    []Grid{{"skel": append([]int{0, 1, 2, 7, 11}, step(100, 150, 5)...), "opt": {16, 9, 0}, "enc": {1}, "runs": {0}, "check": {1}, "lq": {0}}},
+			Thorough: []Grid{{"skel": append([]int{0, 1, 2, 3, 4, 5, 6, 7, 8, 9, 10, 11}, step(100, 150, 1)...), "opt": optsDistinct, "enc": {1}, "runs": {0, 2}, "check": {1}, "lq": {0}}},
+			Note:     "accepted => correct: every key of an accepted skeleton key set is found (the C01 block on shapes with 257-bit nodes, short-node tables and their coincidences)"},
 		{Name: "l3_longrun", Pkg: "trie", Property: "C08", Witness: 1,
 			Quick: []Grid{{"run": {127, 128, 2047, 16384, 32767, 32768, 32769}, "opt": {16, 2}},
 				{"run": {2047, 16384, 32767, 32768, 40000, 65535, 65536}, "opt": {16, 4}, "fan": {16}}},
@@ -215,7 +252,7 @@ func apiSpecs() []*HarnessSpec {
 		q2, t2 := l2Grids("quick", p.check, p.opts, p.small, p.encs, p.lqQ), l2Grids("thorough", p.check, p.opts, p.small, p.encs, p.lqT)
 		if p.check == 1 || p.check == 2 || p.check == 9 {
 			// three keys of length <= 2 in four shapes (a key and two longer keys sharing a first byte, ...)
-			q2 = append(q2, Grid{"n": {3}, "L": {2}, "lens": {21, 22, 25, 26}, "opt": {3, 1}, "enc": {1}, "check": {p.check}, "lq": {0}, "cv": {-1}})
+			q2 = append(q2, Grid{"n": {3}, "L": {2}, "lens": {21, 25}, "opt": {3, 1}, "enc": {1}, "check": {p.check}, "lq": {0}, "cv": {-1}})
 		}
 		if p.check == 1 {
 			// variable-width values of lengths 0..2 on three keys (width sums that coincide)
@@ -226,7 +263,7 @@ func apiSpecs() []*HarnessSpec {
 			Quick:    q2,
 			Thorough: t2,
 			Note:     "L2 (fully symbolic key sets): " + p.note})
-		skQ, skT := []int{0, 1, 2, 3, 4, 5, 7}, []int{0, 1, 2, 3, 4, 5, 6, 7, 8, 9}
+		skQ, skT := []int{0, 1, 2, 3, 4, 5, 7, 11}, []int{0, 1, 2, 3, 4, 5, 6, 7, 8, 9, 10, 11}
 		enc3 := p.encs[:1]
 		lq3Q, lq3T := p.lqQ, p.lqT
 		if len(lq3Q) > 1 {
@@ -234,10 +271,11 @@ func apiSpecs() []*HarnessSpec {
 			lq3T = []int{0, 1, 2, 3, 4, 5}
 		}
 		// sweep family: growing prefixes of a fixed pseudo-random key list (shape/alignment diversity)
-		swQ, swT := step(100, 150, 1), step(100, 150, 1)
+		aligned := append(rng(300, 306), rng(310, 315)...)
+		swQ, swT := append(step(100, 150, 1), aligned...), append(step(100, 150, 1), aligned...)
 		lqS := []int{0}
 		if len(p.lqQ) > 1 {
-			swQ = step(100, 150, 5)
+			swQ = append(step(100, 150, 5), aligned...)
 			lqS = []int{1}
 		}
 		out = append(out, &HarnessSpec{Name: "l3_api", Pkg: "trie", Property: p.prop, Witness: 1,
@@ -264,8 +302,8 @@ func apiSpecs() []*HarnessSpec {
 		},
 		Note: "L2: NewIter/ScanFrom/ScanFromTo on Complete tries with symbolic start/end, inclusivities and withValue symbolic; the t-th yield must be the t-th retained key in range with its encoded value; exhaustion persists. n=2 key bytes range over a 6-letter nibble-diverse alphabet (the scan code forks per label bit)"})
 	out = append(out, &HarnessSpec{Name: "l3_api", Pkg: "trie", Property: "C04", Witness: 1,
-		Quick: []Grid{{"skel": {0, 1, 2, 3}, "opt": {9}, "enc": {1}, "runs": {0, 2}, "check": {4}, "lq": {1, 2}, "api": {0}, "le": {1}, "stop": {0}},
-			{"skel": step(100, 112, 2), "opt": {9}, "enc": {1}, "runs": {0, 3}, "check": {4}, "lq": {1}, "api": {0}, "le": {1}, "stop": {0}},
+		Quick: []Grid{{"skel": {0, 1, 2, 3, 7}, "opt": {9}, "enc": {1}, "runs": {0, 2}, "check": {4}, "lq": {1, 2}, "api": {0}, "le": {1}, "stop": {0}},
+			{"skel": append(step(100, 112, 2), 300, 303, 305, 310, 313), "opt": {9}, "enc": {1}, "runs": {0, 3}, "check": {4}, "lq": {1}, "api": {0}, "le": {1}, "stop": {0}},
 			{"skel": {0}, "opt": {9}, "enc": {2}, "runs": {0}, "check": {4}, "lq": {1}, "api": {0, 2}, "le": {2}, "stop": {0}}},
 		Thorough: []Grid{{"skel": {0, 1, 2, 3, 4}, "opt": optsComplete, "enc": {1, 2, 0}, "runs": {0, 2}, "check": {4}, "lq": {0, 1, 2, 3}, "api": {0, 1, 2}, "le": {1, 2}, "stop": {0, 2}}},
 		Note:     "L3: scans over skeleton tries (257-bit root, deep caterpillar whose stack outgrows the initial scan stack, prefix keys)"})
@@ -301,7 +339,7 @@ func apiSpecs() []*HarnessSpec {
 		Note: "String() on every build path: no panic, one line per node, leaf lines carry the retained (concrete) values in key order"})
 	out = append(out, &HarnessSpec{Name: "l3_api", Pkg: "trie", Property: "C19", Witness: 1,
 		Quick: []Grid{{"skel": {0, 1, 2, 3, 4, 5, 6, 7, 8}, "opt": {16, 9}, "enc": {1}, "runs": {0, 2}, "check": {19}, "lq": {0}, "loaded": {0, 1}},
-			{"skel": step(100, 150, 1), "opt": {16, 9}, "enc": {1}, "runs": {0}, "check": {19}, "lq": {0}, "loaded": {0}}},
+			{"skel": append(step(100, 150, 1), append(rng(300, 306), rng(310, 315)...)...), "opt": {16, 9}, "enc": {1}, "runs": {0}, "check": {19}, "lq": {0}, "loaded": {0}}},
 		Thorough: []Grid{{"skel": {0, 1, 2, 3, 4, 5, 6, 7, 8, 9}, "opt": optsDistinct, "enc": {1, 3}, "runs": {0, 1, 2, 3}, "check": {19}, "lq": {0}, "loaded": {0, 1}}},
 		Note:     "String() on skeleton tries incl. short-node tables and a 257-bit root"})
 	// ---- C05 round trip / determinism / residue ----
@@ -314,7 +352,8 @@ func apiSpecs() []*HarnessSpec {
 		Note: "Unmarshal(Marshal(t)) answers Get/GetID/RangeGet/Search/scan/Stat identically for a symbolic query (codec stub, A-PB); re-marshal and second build give deep-equal messages under all map iteration orders; byte identity is asserted on the native replays only"})
 	out = append(out, &HarnessSpec{Name: "l3_api", Pkg: "trie", Property: "C05", Witness: 1,
 		Quick: []Grid{{"skel": {0, 1, 2, 4, 5, 10}, "opt": {16, 9}, "enc": {1}, "runs": {0, 2}, "check": {5}, "lq": {1, 2}},
-			{"skel": step(100, 150, 10), "opt": {16, 9}, "enc": {1}, "runs": {0}, "check": {5}, "lq": {1}}},
+			{"skel": {100, 102, 104}, "opt": {16, 9}, "enc": {1}, "runs": {0}, "check": {5}, "lq": {1}},
+			{"skel": append(step(105, 150, 5), 300, 301, 310, 311, 314), "opt": {16, 9}, "enc": {1}, "runs": {0}, "check": {5}, "lq": {1}, "det": {0}}},
 		Thorough: []Grid{{"skel": {0, 1, 2, 3, 4, 5, 6, 7, 8, 10}, "opt": optsDistinct, "enc": {1, 2}, "runs": {0, 2}, "check": {5}, "lq": {0, 1, 2, 3, 4}}},
 		Note:     "L3: round trip and determinism on skeleton tries (short-node tables with ties in the bitmap-frequency table)"})
 	out = append(out, &HarnessSpec{Name: "l2_residue", Pkg: "trie", Property: "C05", Witness: 1,
@@ -322,15 +361,18 @@ func apiSpecs() []*HarnessSpec {
 			{"L": {1}, "na": {1}, "lensa": {1}, "opta": {16}, "nb": {2}, "lensb": {3}, "optb": {9}, "nops": {3}, "seq": {1, 4, 6, 13, 19, 24, 33, 45, 52, 57}, "lq": {1}}},
 		Thorough: []Grid{{"L": {1}, "na": {2}, "lensa": {3}, "opta": {9, 16}, "nb": {1, 2}, "lensb": {1, 3}, "optb": {16, 2}, "nops": {3}, "seq": rng(0, 63), "lq": {1, 2}}},
 		Note: "all sequences over {Unmarshal(A), Unmarshal(B), Unmarshal(empty), Reset} on one instance: final answers, message and Stat equal a fresh instance that saw only the last operation"})
+	out = append(out, &HarnessSpec{Name: "l2_residue", Pkg: "trie", Property: "C19", Witness: 1,
+		Quick: []Grid{{"L": {1}, "na": {2}, "lensa": {3}, "opta": {9}, "nb": {1}, "lensb": {1}, "optb": {16}, "nops": {2}, "seq": {1, 4, 6, 9, 12}, "lq": {1}}},
+		Note:  "String() after Unmarshal/Reset sequences on one instance (with renderings in between) equals the rendering of a fresh instance that loaded only the last stream"})
 	// ---- C07 ----
 	out = append(out, &HarnessSpec{Name: "ver_gate", Pkg: "trie", Property: "C07", Witness: 2,
 		Quick:    []Grid{{"lv": rng(0, 6)}},
 		Thorough: []Grid{{"lv": rng(0, 9)}, {"lv": {16}}},
 		Note:     "the version bytes of the header are symbolic (every string of the listed lengths): real ReadHeader/verStr/vers.IsCompatible/semver.Parse on the symbolic string; not rejected with ErrIncompatible => one of the six compatible versions (+build metadata)"})
 	out = append(out, &HarnessSpec{Name: "trunc", Pkg: "trie", Property: "C07", Witness: 1,
-		Quick:    []Grid{{"layout": {0, 1}, "opt": {16, 9}, "cut": rng(0, 44)}},
-		Thorough: []Grid{{"layout": {0, 1, 2}, "opt": {16, 9, 2, 5}, "cut": rng(0, 44)}},
-		Note:     "every strict prefix (cut 0..len-1) of a valid stream (real header bytes, opaque body) is rejected with an error, without panic, and the codec stub is never handed a partial body"})
+		Quick:    []Grid{{"layout": {0, 1}, "opt": {16, 9}, "sec": {0}, "cut": rng(-6, 40)}, {"layout": {3, 4}, "opt": {16}, "sec": {0, 1, 2}, "cut": rng(-6, 40)}},
+		Thorough: []Grid{{"layout": {0, 1, 2}, "opt": {16, 9, 2, 5}, "sec": {0}, "cut": rng(-12, 48)}, {"layout": {3, 4}, "opt": {16}, "sec": {0, 1, 2}, "cut": rng(-12, 48)}},
+		Note:     "every strict prefix of a valid stream (cuts given relative to each section: every header byte, the first and the last body bytes, section boundaries; current, 0.5.10 and three-section legacy layouts; real header bytes, opaque bodies) is rejected with an error, without panic, and the codec stub is never handed a partial body"})
 	out = append(out, &HarnessSpec{Name: "failed_load", Pkg: "trie", Property: "C07", Witness: 1,
 		Quick: []Grid{{"n": {2}, "L": {1}, "lens": {3}, "opt": {16, 9}, "kind": {0, 1, 3, 4}, "cut": {0}, "lq": {1}},
 			{"n": {2}, "L": {1}, "lens": {3}, "opt": {9}, "kind": {2}, "cut": {0, 5, 31}, "lq": {1}}},
@@ -389,8 +431,8 @@ func apiSpecs() []*HarnessSpec {
 			{"n": {3}, "L": {2}, "lens": rng(0, 26), "plen": {64, 4096}}},
 		Note: "relational clause: symbolic K and P+K (concrete prefix of 64/4096 bytes), default options, nil values: a structural upper-bound size measure differs by <= 24; the real serialized sizes differ by <= 16 on the native replays"})
 	out = append(out, &HarnessSpec{Name: "l3_size_abs", Pkg: "trie", Property: "C17", Witness: 1,
-		Quick:    []Grid{{"family": {0, 1, 2, 3}, "n": {64}}},
-		Thorough: []Grid{{"family": {0, 1, 2, 3}, "n": {16, 64, 256}}},
+		Quick:    []Grid{{"family": {0, 1, 2, 3, 4}, "n": {16, 64}}},
+		Thorough: []Grid{{"family": {0, 1, 2, 3, 4}, "n": {16, 64, 256}}},
 		Note:     "adversarial concrete families (caterpillar, long steps, fan-out 11 byte nodes, many distinct bitmaps) with a symbolic tail: upper-bound measure <= 8n+256; real size checked on the native replays"})
 	// ---- C06 ----
 	out = append(out, &HarnessSpec{Name: "l2_legacy0509", Pkg: "trie", Property: "C06", Witness: 1,
@@ -413,8 +455,8 @@ func apiSpecs() []*HarnessSpec {
 	out = append(out, &HarnessSpec{Name: "l3_legacy", Pkg: "trie", Property: "C06", Witness: 1,
 		Quick: []Grid{{"skel": {0, 1, 2, 8}, "model": {0}, "variant": {0, 1, 3}, "opt": {0}, "lq": {1}},
 			{"skel": {0, 1, 8, 9}, "model": {1}, "variant": {0}, "opt": {0, 2, 8}, "lq": {1}},
-			{"skel": step(100, 150, 2), "model": {0}, "variant": {1}, "opt": {0}, "lq": {0}},
-			{"skel": step(100, 150, 2), "model": {1}, "variant": {0}, "opt": {0, 8}, "lq": {0}}},
+			{"skel": append(step(100, 150, 2), append(rng(300, 306), rng(310, 315)...)...), "model": {0}, "variant": {1}, "opt": {0}, "lq": {0}},
+			{"skel": append(step(100, 150, 2), append(rng(300, 306), rng(310, 315)...)...), "model": {1}, "variant": {0}, "opt": {0, 8}, "lq": {0}}},
 		Thorough: []Grid{{"skel": {0, 1, 2, 3, 4, 7, 8, 9}, "model": {0}, "variant": {0, 1, 3, 4}, "opt": {0}, "lq": {1, 2}},
 			{"skel": {0, 1, 2, 3, 4, 5, 7, 8, 9}, "model": {1}, "variant": {0}, "opt": {0, 2, 8, 9}, "lq": {1, 2, 3}}},
 		Note: "L3: skeleton key sets (incl. 64 and 128 leaves, prefix keys, bytes >= 0x80) written by both writer models and loaded; every key answers, and a symbolic query answers as on the index built by the current code"})
